@@ -1,6 +1,20 @@
 (* C16 — streams: line-by-line models of LimitReadCloser, MultiReaderCloser, TeeReadCloser
-   (/repo/streams/{limitreadcloser,multireadercloser,teereadcloser}.go). Definitions only. *)
-From Kit Require Export Lib.Reader.
+   (/repo/streams/{limitreadcloser,multireadercloser,teereadcloser}.go). Definitions only.
+
+   Sources are the scripted readers of C16/ReaderX.v (read errors carry their identity: plain,
+   wrapping io.EOF / io.ErrUnexpectedEOF, bare io.ErrUnexpectedEOF; data may come with an error).
+   The error a source's Close returns is not part of the model: every Close of a source in the
+   three files is [_ = rc.Close()] / [l.R.Close()] with the loop going on regardless (only the
+   wrapper's own Close return value, which the property does not speak of, depends on it), so
+   close counts are independent of it; the harness varies it.
+
+   [stop] in the run functions: [None] = the consumer reads until it is given an error;
+   [Some k] = it stops after at most k Read calls (final error [None] if none came) - and then
+   calls Close all the same. *)
+From Kit Require Export C16.ReaderX.
+
+Definition fuel_of (stop : option nat) (dflt : nat) : nat :=
+  match stop with Some k => k | None => dflt end.
 
 (* ------------------------------------------------------------------------------------- *)
 (* LimitReadCloser                                                                         *)
@@ -42,14 +56,14 @@ Definition limit_fuel (l : lim) : nat := S (S (script_fuel (script (lsrc l)))).
 
 (* Consume to the end, then call Close [k] times (a caller may Close again, e.g. a deferred Close
    after an explicit one): (bytes, final error, closes before the first Close, closes after the
-   last).  The consumer [c] is the sequence of buffer sizes of the Read calls that reach the
+   last).  [stop]: see the head of the file.  The consumer [c] is the sequence of buffer sizes of the Read calls that reach the
    wrapper: limitReadCloser has no method besides Read and Close ([implements] below), so
    io.ReadAll, io.Copy, io.CopyBuffer, io.CopyN and a destination's ReadFrom all reduce to Read
    loops, each with its own sizes. *)
-Definition limit_run (v : variant) (n : Z) (s : list rd) (c : consumer) (k : nat)
-  : list N * option err * nat * nat :=
+Definition limit_run (v : variant) (n : Z) (s : list rd) (c : consumer) (stop : option nat)
+           (k : nat) : list N * option err * nat * nat :=
   let l0 := lim_new n s in
-  let '(bs, e, l1) := consume (limit_read v) (limit_fuel l0) c l0 [] in
+  let '(bs, e, l1) := consume (limit_read v) (fuel_of stop (limit_fuel l0)) c l0 [] in
   (bs, e, closes (lsrc l1), closes (lsrc (Nat.iter k limit_close l1))).
 
 (* ------------------------------------------------------------------------------------- *)
@@ -69,7 +83,9 @@ Definition multi_new (srcs : list (list rd * bool)) : multi :=
 Definition close_src (s : src) : src :=
   if closable s then {| sreader := close_reader (sreader s); closable := true |} else s.
 
-(* func (mr *MultiReaderCloser) Read(p []byte): the for loop over mr.readers. *)
+(* func (mr *MultiReaderCloser) Read(p []byte): the for loop over mr.readers.  [err == io.EOF]
+   is a comparison with the VALUE: a failure that wraps io.EOF ([EFail FWrapEOF]) is an error like
+   any other and stays at the head of the list. *)
 Fixpoint multi_read_loop (want : nat) (rs : list src) (gone : list src) : list N * err * multi :=
   match rs with
   | [] => ([], EEOF, {| mreaders := []; mgone := gone |})
@@ -116,7 +132,7 @@ Fixpoint multi_write_to_loop (v : variant) (c : consumer) (rs : list src) (gone 
           let r'' := match v with Original => r' | Fixed => close_src r' end in
           multi_write_to_loop v c rest (gone ++ [r'']) (acc ++ bs)
       | Some e' => (acc ++ bs, e', {| mreaders := r' :: rest; mgone := gone |})
-      | None => (acc ++ bs, EFail, {| mreaders := r' :: rest; mgone := gone |})
+      | None => (acc ++ bs, EFail FPlain, {| mreaders := r' :: rest; mgone := gone |})
       end
   end.
 
@@ -136,12 +152,12 @@ Definition close_counts (m : multi) : list nat :=
    io.CopyBuffer), every source copied with the buffer sizes [c].  Then [k] calls of Close. *)
 Inductive mmode := ViaRead (c : consumer) | ViaWriteTo (c : consumer).
 
-Definition multi_run (v : variant) (srcs : list (list rd * bool)) (mode : mmode) (k : nat)
-  : list N * option err * list nat * list nat :=
+Definition multi_run (v : variant) (srcs : list (list rd * bool)) (mode : mmode)
+           (stop : option nat) (k : nat) : list N * option err * list nat * list nat :=
   let m0 := multi_new srcs in
   let '(bs, e, m1) :=
     match mode with
-    | ViaRead c => consume multi_read (multi_fuel m0) c m0 []
+    | ViaRead c => consume multi_read (fuel_of stop (multi_fuel m0)) c m0 []
     | ViaWriteTo c => let '(bs, e, m1) := multi_write_to v c m0 in (bs, Some e, m1)
     end in
   (bs, e, close_counts m1, close_counts (Nat.iter k multi_close m1)).
@@ -167,13 +183,18 @@ Definition tee_new (s : list rd) (budget : option nat) : tee :=
      tw := {| wbuf := []; wbudget := budget; wcloses := 0 |};
      topen := true; teof := false |}.
 
-(* func (t *TeeReadCloser) Read(p []byte) *)
+(* func (t *TeeReadCloser) Read(p []byte).  [errors.Is(err, io.EOF)] also holds for a failure
+   that wraps io.EOF: it is returned as it is, and remembered as the end of the stream. *)
 Definition tee_read (want : nat) (t : tee) : list N * err * tee :=
   if negb (topen t) then ([], EClosedPipe, t)
   else if teof t then ([], EEOF, t)
   else
     let '(bs, e, r') := read want (tr t) in
-    let eof' := match e with EEOF => true | _ => teof t end in
+    let eof' := match e with
+                | EEOF => true
+                | EFail k => is_eof_kind k || teof t
+                | _ => teof t
+                end in
     match bs with
     | [] => ([], e, {| tr := r'; tw := tw t; topen := true; teof := eof' |})
     | _ =>
@@ -195,10 +216,10 @@ Definition tee_fuel (t : tee) : nat := S (S (script_fuel (script (tr t)))).
 
 (* (bytes delivered, final error, bytes written, source closes, writer closes) after [k] calls
    of Close *)
-Definition tee_run (s : list rd) (budget : option nat) (c : consumer) (k : nat)
-  : list N * option err * list N * nat * nat :=
+Definition tee_run (s : list rd) (budget : option nat) (c : consumer) (stop : option nat)
+           (k : nat) : list N * option err * list N * nat * nat :=
   let t0 := tee_new s budget in
-  let '(bs, e, t1) := consume tee_read (tee_fuel t0) c t0 [] in
+  let '(bs, e, t1) := consume tee_read (fuel_of stop (tee_fuel t0)) c t0 [] in
   let t2 := Nat.iter k tee_close t1 in
   (bs, e, wbuf (tw t2), closes (tr t2), wcloses (tw t2)).
 
